@@ -661,14 +661,10 @@ def r10(F, R):
         R.bad("C13-R10", "positive-control", "fixtures/positive", "matcher failed on the planted accumulators: %s" % sorted(ph))
 
 
-def r11(F, R):
-    R.rule("C13-R11", "no float-to-integer conversion that can panic in the sampling path: `x.to_u64().unwrap()` (ToPrimitive / NumCast / TryFrom on a float) returns "
-                      "None for NaN, negative and out-of-range values; it is accepted only where the operand is bounded by construction - floor / ceil of the log2 "
-                      "of a value that went through an integer type. A ratio such as target_time / step_size is unbounded: recoverable density errors drive the "
-                      "adapted step size towards 0, and the chain worker panics instead of recording the divergences")
-    n = 0
+def _float_to_int_unwraps(F, in_scope):
+    out = []
     for b in sorted(F.bodies.values(), key=lambda x: x.path):
-        if K.is_std_derive(b) or not b.blocks or b.path.startswith(("storage::", "<storage::")):
+        if K.is_std_derive(b) or not b.blocks or not in_scope(b):
             continue
         for bb, t in b.calls():
             c = t["callee"]
@@ -682,19 +678,33 @@ def r11(F, R):
             sty = str((v[3] or {}).get("self_ty") or "")
             if "f64" not in sty and "f32" not in sty and not any(n_[0] == "call" and "f64" in str(n_[1]) and str(n_[1]).split("::")[-1] in ("floor", "ceil", "round", "log2", "trunc") for n_ in vt_walk_(src)):
                 continue
-            n += 1
-            site = "%s @%s" % (b.path, loc(t["span"]))
-            key = "%s:float-to-int#%d" % (b.path, n)
             bounded = any(n_[0] == "call" and "f64" in str(n_[1]) and str(n_[1]).split("::")[-1] == "log2" and n_[2] and any(m_[0] == "cast" for m_ in vt_walk_(n_[2][0])) for n_ in vt_walk_(src))
-            if bounded:
-                R.ok("C13-R11", key, site, "operand is floor/ceil(log2(<integer as f64>)): at most 64 and never NaN (that the integer is >= 1 - a positive target time - is a value question, not decided)")
-            else:
-                from .facts import vt_str as _s
-                R.bad("C13-R11", key, site, "`%s(..).unwrap()` of %s: the operand is not bounded (NaN / negative / > u64::MAX give None and the worker panics)" % (
-                    str(v[1]).split("::")[-1], _s(src)[:100]))
-    if n == 0:
-        R.info("C13-R11", "no unwrapped float-to-integer conversion in the sampling path")
-    R.floor("C13-R11", 2)
+            out.append((b, t, v, src, bounded))
+    return out
+
+
+def r11(F, R):
+    R.rule("C13-R11", "no float-to-integer conversion that can panic in the sampling path: `x.to_u64().unwrap()` (ToPrimitive / NumCast / TryFrom on a float) returns "
+                      "None for NaN, negative and out-of-range values; it is accepted only where the operand is bounded by construction - floor / ceil of the log2 "
+                      "of a value that went through an integer type. A ratio such as target_time / step_size is unbounded: recoverable density errors drive the "
+                      "adapted step size towards 0, and the chain worker panics instead of recording the divergences")
+    from .facts import vt_str as _s
+    hits = _float_to_int_unwraps(F, lambda b: not b.path.startswith(("storage::", "<storage::")))
+    for n, (b, t, v, src, bounded) in enumerate(hits, 1):
+        site = "%s @%s" % (b.path, loc(t["span"]))
+        key = "%s:float-to-int#%d" % (b.path, n)
+        if bounded:
+            R.ok("C13-R11", key, site, "operand is floor/ceil(log2(<integer as f64>)): at most 64 and never NaN (that the integer is >= 1 - a positive target time - is a value question, not decided)")
+        else:
+            R.bad("C13-R11", key, site, "`%s(..).unwrap()` of %s: the operand is not bounded (NaN / negative / > u64::MAX give None and the worker panics)" % (
+                str(v[1]).split("::")[-1], _s(src)[:100]))
+    if not hits:
+        R.ok("C13-R11", "scan", "library crates", "no unwrapped float-to-integer conversion in the sampling path")
+    ph = {b.path.split("::")[-1]: bounded for (b, _t, _v, _s2, bounded) in _float_to_int_unwraps(K.positive_facts(), lambda b: True)}
+    if ph.get("c13_ratio_to_u64_unwrap") is False and ph.get("c13_log2_to_u64_unwrap") is True and "c13_ratio_to_u64_checked" not in ph:
+        R.ok("C13-R11", "positive-control", "fixtures/positive", "the planted unbounded conversion is reported, the log2-of-integer one is accepted, the checked one is not matched")
+    else:
+        R.bad("C13-R11", "positive-control", "fixtures/positive", "matcher fails on the planted conversions: %s" % ph)
 
 
 def r12(F, R):
